@@ -158,7 +158,7 @@ def run_case(case):
         b_idx = case.get('b_idx') or list(range(len(rates)))
         pairs = [(rates[i], rates[j]) for i in a_idx for j in b_idx if i <= j]
         catalogs = [list(c) for c in space.multisets(list(range(n)), case.get('min_events', 2), case['max_events'])]
-        variants = [(0.05, False)] if case['variants'] == 'main' else [(0.01, False), (0.5, False), (0.05, True), (0.01, True), (0.05, 'rescaled')]
+        variants = [(0.05, False)] if case['variants'] == 'main' else [(0.01, False), (0.5, False), (0.05, True), (0.01, True), (0.05, 'rescaled'), (0.05, 'rescaled-scaled'), (0.05, 'catalog-changed')]
     def fc_of(r, name):
         # a FRESH forecast object per state: the calls of one state (T(A,B), T(B,A), binary T both orders, W both orders)
         # form an explicit history on the same two objects, so a call that corrupts a forecast is seen by the next one,
@@ -176,10 +176,28 @@ def run_case(case):
                 try:
                     fa, fb = fc_of(ra, 'A'), fc_of(rb, 'B')
                     states += 1
-                    rescaled = (scale == 'rescaled')
+                    the_cat = cats[key]
+                    cat_bins0 = cat_bins
+                    if scale == 'catalog-changed':
+                        # history: the two forecasts are compared on a catalog; the SAME catalog object then loses its last event
+                        # (its event array is replaced); the same forecast objects are compared on it again
+                        scale = False
+                        if len(cat_bins) < 3:
+                            continue
+                        mk = lambda bins_: fixtures.catalog(fixtures.events_from_counts(numpy.array([bins_.count(k) for k in range(n)]).reshape(nc, nm), origins, mags), region=reg)
+                        the_cat = mk(cat_bins)
+                        for f_ in (pe.paired_t_test, pe.w_test, be.binary_paired_t_test):
+                            try:
+                                f_(fa, fb, the_cat)
+                            except Exception:
+                                pass
+                        cat_bins = sorted(cat_bins)[:-1]
+                        the_cat.catalog = mk(cat_bins).catalog
+                    rescaled = scale in ('rescaled', 'rescaled-scaled')
                     if rescaled:
                         # history: both forecasts are used once (their totals are read), then rescaled by 1/2, then used again
-                        scale = False
+                        # (with scale=False, or with scale=True: the daily rates of the RESCALED forecast)
+                        scale = (scale == 'rescaled-scaled')
                         try:
                             pe.w_test(fa, fb, cats[key] if key in cats else fixtures.catalog(fixtures.events_from_counts(numpy.array([cat_bins.count(k) for k in range(n)]).reshape(nc, nm), origins, mags), region=reg))
                             _ = fa.event_count, fb.event_count, fa.sum(), fb.sum()
@@ -201,7 +219,7 @@ def run_case(case):
                     for site, fn, A, B in (('poisson_evaluations.paired_t_test', pe.paired_t_test, (xa, xb), None),
                                            ('binomial_evaluations.binary_paired_t_test', be.binary_paired_t_test,
                                             ([ra[k] for k in active], [rb[k] for k in active]), None)):
-                        cat = cats[key]
+                        cat = the_cat
                         try:
                             r1 = fn(fa, fb, cat, alpha=alpha, scale=scale)
                             r2 = fn(fb, fa, cat, alpha=alpha, scale=scale)
@@ -249,8 +267,8 @@ def run_case(case):
                             counters['w_all_zero_excluded'] += 1
                             continue
                         try:
-                            w1 = pe.w_test(fa, fb, cats[key], scale=scale)
-                            w2 = pe.w_test(fb, fa, cats[key], scale=scale)
+                            w1 = pe.w_test(fa, fb, the_cat, scale=scale)
+                            w2 = pe.w_test(fb, fa, the_cat, scale=scale)
                         except Exception as e:
                             failures.append(Fail(f'{site}|{type(e).__name__}|any', f'{type(e).__name__}: {e} A={ra} B={rb} bins={cat_bins}', rep))
                             continue
@@ -272,6 +290,7 @@ def run_case(case):
                             failures.append(Fail(f'{site}|not-invariant-under-swap|any', f'{(z1, p1)} vs swapped {(z2, p2)} (A={ra} B={rb} bins={cat_bins})', rep))
                 finally:
                     ra, rb = ra0, rb0
+                    cat_bins = cat_bins0
         if len(failures) > 60:
             break
     seen, uniq = set(), []
